@@ -52,6 +52,25 @@ func (e *Engine) intrinsic(fr *Frame, st *State, ins ssa.Instruction, key string
 		return Val{}, false // an explicit spec overrides
 	}
 	unit := Val{Fs: []Val{}}
+	if key == "sync.(*Map).Range" && len(args) == 2 && args[1].Clo != nil {
+		// the callback runs an unknown number of times: forget everything it may write
+		cfn := args[1].Clo.Fn.(*ssa.Function)
+		ws := newWriteSet()
+		sub := &Frame{fn: cfn, cellOf: map[*ssa.Alloc]int{}, free: args[1].Clo.Bindings}
+		e.blocksWrites(sub, cfn.Blocks, ws, fr.depth+1, map[*ssa.Function]bool{cfn: true})
+		if ws.all {
+			st.havocAll()
+		}
+		for k := range ws.keys {
+			st.havocKey(k)
+		}
+		for c := range ws.cells {
+			if old, ok := st.cells[c]; ok {
+				st.cells[c] = e.havocVal(st, old, e.cellType(fr, c))
+			}
+		}
+		return unit, true
+	}
 	if strings.HasPrefix(key, "sync.") || strings.HasPrefix(key, "atomic.") {
 		if tp, ok := resType.(*types.Tuple); ok && tp.Len() == 0 {
 			return unit, true
